@@ -5,8 +5,8 @@
 //! points are the durable states of the journal: SQLite update/commit hooks on the journal's own
 //! connection record the row count at every commit (with autocommitted INSERTs that is every row
 //! count; rows written inside one transaction give one stop point). For every such k the journal
-//! file is copied, rows with rowid > k are deleted through `rusqlite`, and a fresh handler is
-//! recovered with `recover_with_journal` (what `try_from_config` does when the file exists).
+//! file is copied, rows with rowid > k are deleted through `rusqlite`, and the server is restarted
+//! on it with `SqliteZoneHandler::try_from_config` (journal file present, TSIG key from a key file).
 //!
 //! Oracle. B_0, B_1, ... are the states of the *running* server at whole-message boundaries
 //! (content and serial; C12 separately decides that they are the RFC 2136 states), r_i the row
@@ -260,17 +260,46 @@ enum Recovered {
     Refused(String),
 }
 
-/// what `try_from_config` does when the journal file exists
+/// the restart itself: `SqliteZoneHandler::try_from_config` with the journal file in place (the
+/// path the server binary takes; it opens the journal, recovers the zone from it and attaches it
+/// for further updates). No zone file is configured: with a journal present it is not read.
 fn recover(path: &std::path::Path, origin: &[Vec<u8>]) -> Result<Recovered, Fail> {
-    let journal = Journal::from_file(path).map_err(|e| Fail::new("recovery-cannot-open-journal", e.to_string()))?;
-    let mut h = empty_handler(origin, AxfrPolicy::Deny);
-    let r = crate::core::catch(|| block_on(h.recover_with_journal(&journal)));
+    use hickory_server::store::sqlite::{SqliteConfig, TsigKeyConfig};
+    let dir = path.parent().ok_or_else(|| Fail::new("harness", "journal path without a directory"))?;
+    let key = test_key();
+    let key_file = dir.join("upd-key.bin");
+    if !key_file.exists() {
+        std::fs::write(&key_file, &key.secret).map_err(|e| Fail::new("harness", format!("key file: {e}")))?;
+    }
+    let config = SqliteConfig {
+        zone_path: "no-such-zone-file.zone".into(),
+        journal_path: path.to_path_buf(),
+        allow_update: true,
+        tsig_keys: vec![TsigKeyConfig {
+            name: to_name(&key.name).to_ascii(),
+            key_file,
+            algorithm: hickory_alg(key.alg),
+            fudge: 300,
+        }],
+    };
+    let r = crate::core::catch(|| {
+        block_on(Handler::try_from_config(
+            to_name(origin),
+            hickory_server::zone_handler::ZoneType::Primary,
+            AxfrPolicy::Deny,
+            false,
+            Some(dir),
+            &config,
+            None,
+        ))
+    });
     match r {
         Err(p) => Err(crate::core::panic_fail(&p)),
-        Ok(Err(e)) => Ok(Recovered::Refused(e.to_string())),
-        Ok(Ok(())) => {
-            h.set_tsig_signers(vec![hickory_signer(&test_key(), 300)]);
-            block_on(h.set_journal(journal));
+        Ok(Err(e)) => Ok(Recovered::Refused(e)),
+        Ok(Ok(h)) => {
+            if block_on(h.journal()).is_none() {
+                return Err(Fail::new("recovered-handler-has-no-journal-attached", "try_from_config returned a handler without journal: later updates would not be persisted"));
+            }
             let h = Arc::new(h);
             let log = install_observer(&h)?;
             Ok(Recovered::Ok(h, log))
@@ -605,7 +634,7 @@ pub fn check() -> Option<Check> {
     Some(Check {
         id: "C14",
         level: "fault_enumeration",
-        rule: "C12 histories (1..6 signed UPDATE messages through ZoneHandler::update; apex delete-all redirected, serial 2^32-1 avoided) on a SqliteZoneHandler with an on-disk journal incl. the initial persist_to_journal dump; per history EVERY durable journal state is a stop point: the row count k after each SQLite commit as recorded by update/commit hooks on the journal's connection, which with this tree's autocommitted INSERTs is every k in 0..=rows (copy the file, DELETE rowid > k, recover_with_journal into a fresh handler, re-attach the journal, continue the remaining history); journal_stop_twice additionally sweeps every stop point of the continuation for a third of the first-level points. Counters stop_points / recoveries / continuations give the number of (history, k) pairs. Non-trivial = distinct history containing at least one message that wrote >= 2 journal rows (so that some k lies strictly inside a message or between its update rows and its SOA row)",
+        rule: "C12 histories (1..6 signed UPDATE messages through ZoneHandler::update; apex delete-all redirected, serial 2^32-1 avoided) on a SqliteZoneHandler with an on-disk journal incl. the initial persist_to_journal dump; per history EVERY durable journal state is a stop point: the row count k after each SQLite commit as recorded by update/commit hooks on the journal's connection, which with this tree's autocommitted INSERTs is every k in 0..=rows (copy the file, DELETE rowid > k, restart through SqliteZoneHandler::try_from_config with that journal file in place - the path the server binary takes - and continue the remaining history on the handler it returns); journal_stop_twice additionally sweeps every stop point of the continuation for a third of the first-level points. Counters stop_points / recoveries / continuations give the number of (history, k) pairs. Non-trivial = distinct history containing at least one message that wrote >= 2 journal rows (so that some k lies strictly inside a message or between its update rows and its SOA row)",
         assumptions: vec![
             "a stop tears between SQLite commits (observed, not assumed); atomicity and durability of one SQLite commit are SQLite's and are trusted",
             "boundary states are those of the running server (C12 decides separately that they are the RFC 2136 states)",
